@@ -4,6 +4,7 @@ Not part of the proved core.
 -/
 import DefconModel.Util.SExp
 import DefconModel.ConvSave
+import DefconModel.Replace
 
 namespace DefconModel
 namespace Conv
@@ -149,8 +150,43 @@ def fullyLoaded (m : Mem) (c : Full) : Mem :=
   { m with layers := c.layers.map (fun l => ⟨l.name, loaded l.glyphs, l.info⟩), images := loaded c.images,
            data := loaded c.data }
 
+/-! ### the final replace (M-Replace): the UFO at the destination is blob 1, the new one blob 2, a partial
+arrival blob 3 -/
+
+def asKind? : SExp → Option Replace.Kind
+  | .atom "dir" => some .dir
+  | .atom "file" => some .file
+  | _ => none
+
+def asFault? : SExp → Option Replace.Fault
+  | .atom "none" => some .none
+  | .atom "aside-raises" => some .asideRaises
+  | .atom "movein-raises" => some .moveInRaises
+  | .atom "movein-torn" => some (.moveInTorn 3)
+  | .atom "movein-copied" => some .moveInCopied
+  | _ => none
+
+def encNode : Option Replace.Node → SExp
+  | none => .atom "nothing"
+  | some n => .list [.atom (match n.kind with | .dir => "dir" | .file => "file"),
+      .atom (if n.inside ≠ [] then "other" else if n.blob = 1 then "old" else if n.blob = 2 then "new" else "other")]
+
 def driverStep (s : DState) (line : SExp) : DState × SExp :=
   match line with
+  -- a save (target format t) whose final replace meets the fault: what lies at the destination afterwards
+  -- (M-Replace); in memory the font has read what a save-as reads and stays bound to its UFO
+  | .list [.atom "savefault", t, old, new, fault] =>
+    withMem s fun m =>
+      match asFmt? t, asOpt? asKind? old, asKind? new, asFault? fault with
+      | some t, some old, some new, some f =>
+        let r := Replace.replace { dest := old.map (fun k => { kind := k, blob := 1 }), temp := some { kind := new, blob := 2 } } f
+        let out := SExp.list [.atom (if r.raised then "raised" else "done"), encNode r.fs.dest]
+        if r.raised then
+          match saveFailsAtReplace featureHeader m t with
+          | none => (s, err "save")
+          | some m' => ({ mem := some m' }, out)
+        else (s, .atom "bad-op")      -- a completed save is the op `save`
+      | _, _, _, _ => (s, .atom "bad-op")
   -- pure conversion functions
   | .list [.atom "findheader", t] =>
     match asText? t with
